@@ -30,7 +30,8 @@ RULE = (
     "from 1000-1100 hPa down to 1-300 hPa, linear / logarithmic / quadratic "
     "spacing, on the nested grids of 25, 97, 385, 1537 levels; plus "
     "arbitrary drawn non-negative vmr, T, z on irregular grids and rank-2 "
-    "input.  heights: pressure2height on irregular decreasing pressure grids "
+    "input; column_relative_humidity for 1-5 (or more than levels) columns "
+    "along axis 0 / 1 / -1 with drawn T in 185-300 K and q = beta * q_sat.  heights: pressure2height on irregular decreasing pressure grids "
     "of 2-2000 levels with no / isothermal / arbitrary temperatures; the ISA "
     "table levels are enumerated.  Non-trivial = irregular grid or rank >= 2 "
     "or >= 100 levels (integrals, heights) / every analytic profile.  "
@@ -230,19 +231,24 @@ def check_integral(case, ctx):
         return np.asarray(integrate_column(yy, xx, axis=axis),
                           dtype=float).reshape(-1)
 
-    # linear in y
+    # linear in y.  The elements of a*y + b*y2 are rounded, so the bound uses
+    # A = sum |dx| (|y_i| + |y_i+1|) / 2 >= sum |panel|
     a, b = case["a"], case["b"]
     g2 = integ(y2, x)
-    S2 = np.zeros(len(ycols))
-    for c, col in enumerate(columns(y2, pos)):
-        xc = None if x is None else (x if xmode == "1d" else xcols[c])
-        S2[c] = float(trapezoid_exact(
-            col.tolist(), None if xc is None else xc.tolist())[1])
-    tol2 = 2.0 * (N + 4) * U * S2 + 1e-300
+
+    def abs_integral(yy):
+        cols = np.abs(columns(yy, pos))
+        if x is None:
+            dx = np.ones((1, N - 1))
+        elif xmode == "1d":
+            dx = np.abs(np.diff(x))[None, :]
+        else:
+            dx = np.abs(np.diff(xcols, axis=1))
+        return (dx * (cols[:, :-1] + cols[:, 1:])).sum(axis=1) / 2
+
+    Az = abs(a) * abs_integral(y) + abs(b) * abs_integral(y2)
     gz = integ(a * y + b * y2, x)
-    Sz = abs(a) * S + abs(b) * S2
-    lim = (2.0 * (N + 4) * U * Sz * (1 + 8 * U) + abs(a) * tol + abs(b) * tol2
-           + 8 * U * Sz + 1e-300)
+    lim = 2.0 * (2 * N + 16) * U * Az * (1 + 1e-9) + 1e-300
     bad = np.abs(gz - (a * gflat + b * g2)) > lim
     ctx.check(not bad.any(), "integral/not-linear", lambda: (
         "I(%r y + %r y2) = %r, %r I(y) + %r I(y2) = %r" % (
@@ -620,6 +626,95 @@ def check_columns(case, ctx):
         ctx.fail("iwv/no-ValueError-for-T-xor-z", repr(list(kw)))
 
 
+# ---- column relative humidity of several columns -----------------------------
+@st.composite
+def crh_cases(draw):
+    N = draw(st.one_of(st.integers(2, 8), st.integers(2, 40)))
+    ncol = draw(st.sampled_from([0, 1, 2, 3, 5, N, N + 3]))
+    axis = draw(st.sampled_from([0, 0, 1, -1])) if ncol else 0
+    p0 = draw(st.floats(950e2, 1050e2, allow_nan=False))
+    ratios = draw(st.lists(st.floats(0.8, 0.995, allow_nan=False),
+                           min_size=N - 1, max_size=N - 1))
+    p = [p0]
+    for r in ratios:
+        p.append(max(p[-1] * r, 150e2 * (1 - 1e-3 * len(p))))
+    for i in range(1, N):
+        if p[i] > p[i - 1] * (1 - 1e-6):
+            p[i] = p[i - 1] * (1 - 1e-6)
+    tot = N * max(ncol, 1)
+    pool_T = draw(st.lists(st.floats(185.0, 300.0, allow_nan=False),
+                           min_size=7, max_size=23))
+    pool_b = draw(st.lists(st.one_of(st.floats(0.0, 1.0, allow_nan=False),
+                                     st.just(1.0)), min_size=5, max_size=13))
+    a = draw(st.integers(1, 22))
+    T = GS.tile(pool_T, tot, a, draw(st.integers(0, 22)), 0.0)
+    beta = GS.tile(pool_b, tot, draw(st.integers(1, 12)),
+                   draw(st.integers(0, 12)), 0.0)
+    return {"N": N, "ncol": ncol, "axis": axis, "p": [float(v) for v in p],
+            "T": T, "beta": beta,
+            "alpha": draw(st.floats(0.05, 1.0, allow_nan=False))}
+
+
+def check_crh(case, ctx):
+    from typhon.physics import column_relative_humidity
+    C = consts()
+    N, ncol, axis = case["N"], case["ncol"], case["axis"]
+    p = np.array(case["p"], dtype=float)
+    ctx.label("crh-rank-%d" % (1 if ncol == 0 else 2), "decreasing")
+    if ncol:
+        ctx.label("crh-axis-%d" % axis)
+        ctx.label("crh-ncol==nlev" if ncol == N else
+                  "crh-ncol>nlev" if ncol > N else "crh-ncol<nlev")
+        ctx.nontrivial = True
+
+    def arr(name):
+        a = np.array(case[name], dtype=float)
+        if ncol == 0:
+            return a
+        a = a.reshape(ncol, N)
+        return a.T.copy() if axis == 0 else a
+
+    T, beta = arr("T"), arr("beta")
+    Tc = T.reshape(N, -1) if axis == 0 else T.reshape(-1, N).T     # (N, ncol)
+    bc = beta.reshape(N, -1) if axis == 0 else beta.reshape(-1, N).T
+    es = e_mixed(Tc, C["Tt"])
+    pl = p.astype(LD)[:, None]
+    if not (es <= 0.3 * pl).all():
+        raise AssertionError("generator: saturation pressure > 0.3 p")
+    qs_c = (LD(0.622) * es / (pl - LD(0.378) * es)).astype(float)
+    q_c = (qs_c.astype(LD) * bc.astype(LD)).astype(float)
+
+    def shaped(cols):
+        if ncol == 0:
+            return cols[:, 0].copy()
+        return cols.copy() if axis == 0 else cols.T.copy()
+
+    out_shape = () if ncol == 0 else (ncol,)
+    sat = column_relative_humidity(shaped(qs_c), p, T.copy(), axis=axis) \
+        if ncol else column_relative_humidity(shaped(qs_c), p, T.copy())
+    ctx.check(np.shape(sat) == out_shape, "crh/shape", lambda: (
+        "q shape %r axis %r: result shape %r" % (T.shape, axis,
+                                                 np.shape(sat))))
+    sat = np.atleast_1d(np.asarray(sat, dtype=float))
+    ctx.check(bool((np.abs(sat - 1.0) <= 1e-12).all()), "crh/saturated-not-1",
+              lambda: "q shape %r axis %r: CRH of saturated columns = %r" % (
+                  T.shape, axis, sat))
+    got = np.atleast_1d(np.asarray(column_relative_humidity(
+        shaped(q_c), p, T.copy(), axis=axis), dtype=float))
+    al = case["alpha"]
+    got_a = np.atleast_1d(np.asarray(column_relative_humidity(
+        al * shaped(q_c), p, T.copy(), axis=axis), dtype=float))
+    for c in range(q_c.shape[1]):
+        ref = float(ld_trapz(q_c[:, c], p) / ld_trapz(qs_c[:, c], p))
+        ctx.check(abs(got[c] - ref) <= 1e-12 * ref + 1e-300, "crh/value",
+                  lambda: "q shape %r axis %r column %d: CRH %r, int q dp / "
+                  "int q_s dp = %r" % (T.shape, axis, c, got[c], ref))
+        ctx.check(abs(got_a[c] - al * got[c]) <= 1e-10 * al * got[c] + 1e-300,
+                  "crh/not-linear-in-q", lambda: (
+                      "column %d: CRH(%r q) = %r, %r CRH(q) = %r" % (
+                          c, al, got_a[c], al, al * got[c])))
+
+
 # ==========================================================================
 # pressure2height / standard_atmosphere
 # ==========================================================================
@@ -821,6 +916,8 @@ def suites(tier):
               examples={"quick": 40, "thorough": 400}),
         Suite("columns", check_columns, strategy=column_cases(),
               examples={"quick": 150, "thorough": 1500}),
+        Suite("crh-columns", check_crh, strategy=crh_cases(),
+              examples={"quick": 100, "thorough": 1000}),
         Suite("heights", check_heights, strategy=height_cases(),
               examples={"quick": 200, "thorough": 2000}),
         Suite("isa-table", check_isa, cases=isa_cases, exhaustive=True),
